@@ -200,6 +200,83 @@ fn sock_err(e: &io::Error) -> String {
     format!("err{}{}", kind_index(e.kind()), if e.raw_os_error().is_some() { "" } else { "!" })
 }
 
+/// ground truth for "send attempts": a back-pressure case is replayed in a child under `strace -e trace=sendto`
+/// and the kernel's count of send calls to the receiver's path (accepted / refused) is compared with the
+/// sink's final counters
+fn run_strace(kind: &str) -> String {
+    let cap = if kind.starts_with('b') { "8" } else { "-" };
+    let mut ops: Vec<String> = Vec::new();
+    for round in 0..3 {
+        for j in 0..14 {
+            ops.push(format!("e{}", hex(format!("s{}.{:03}", round, j).as_bytes())));
+        }
+        ops.push("r".to_string());
+        ops.push("f".to_string());
+    }
+    ops.push("s".to_string());
+    let case = format!("sock {} {} 1 m {}", kind, cap, ops.join(","));
+    let exe = match std::env::current_exe() {
+        Ok(e) => e,
+        Err(_) => return "strace-unavailable".to_string(),
+    };
+    let trace = temp_path("strace").with_extension("txt");
+    let child = std::process::Command::new("strace")
+        .args(["-f", "-qq", "-e", "trace=sendto", "-o"])
+        .arg(&trace)
+        .arg(exe)
+        .arg("replay")
+        .stdin(std::process::Stdio::piped())
+        .stdout(std::process::Stdio::piped())
+        .stderr(std::process::Stdio::null())
+        .spawn();
+    let mut child = match child {
+        Ok(c) => c,
+        Err(_) => return "strace-unavailable".to_string(),
+    };
+    use std::io::Read;
+    let _ = child.stdin.take().unwrap().write_all(format!("{}\n", case).as_bytes());
+    let mut out = String::new();
+    let _ = child.stdout.take().unwrap().read_to_string(&mut out);
+    let _ = child.wait();
+    let text = std::fs::read_to_string(&trace).unwrap_or_default();
+    let _ = std::fs::remove_file(&trace);
+    // completed calls: either a whole line `sendto(… "peer-…") = r`, or a `<... sendto resumed>) = r` line whose
+    // unfinished half named the peer
+    let (mut ok, mut refused) = (0u64, 0u64);
+    let mut pending: std::collections::HashMap<String, bool> = std::collections::HashMap::new();
+    for l in text.lines() {
+        let pid = l.split_whitespace().next().unwrap_or("").to_string();
+        if l.contains("sendto(") && l.contains("<unfinished") {
+            pending.insert(pid, l.contains("/peer-"));
+            continue;
+        }
+        let relevant = if l.contains("sendto resumed") { pending.remove(&pid).unwrap_or(false) } else { l.contains("sendto(") && l.contains("/peer-") };
+        if !relevant {
+            continue;
+        }
+        match l.rsplit(" = ").next() {
+            Some(r) if r.starts_with("-1") => refused += 1,
+            Some(_) => ok += 1,
+            None => {}
+        }
+    }
+    if ok + refused == 0 {
+        return "strace-unavailable".to_string();
+    }
+    // the sink's own figures: the last `S…` of the observation
+    let obs = out.trim().split(" => ").nth(1).unwrap_or("").to_string();
+    let st = obs.split(';').filter_map(|o| o.split('/').next()).filter(|r| r.starts_with('S')).last().unwrap_or("").to_string();
+    let nums: Vec<u64> = st.trim_start_matches('S').split('.').filter_map(|x| x.parse().ok()).collect();
+    if nums.len() != 4 {
+        return format!("no-stats-in-{}", obs.chars().take(60).collect::<String>());
+    }
+    if nums[1] == ok && nums[3] == refused {
+        "ok".to_string()
+    } else {
+        format!("kernel-saw-{}-accepted-{}-refused-sends-the-sink-reports-{}-sent-{}-dropped", ok, refused, nums[1], nums[3])
+    }
+}
+
 /// more than 4 GiB through one sink (refused or sent): the byte counters are true totals
 fn run_big(kind: &str) -> String {
     let (sink, peer) = match build(kind, "-", true) {
@@ -285,9 +362,16 @@ fn build(kind: &str, cap: &str, nb: bool) -> Option<(DynSink, Peer)> {
             };
             Some((sink, Peer::Udp(peer, decoy)))
         }
-        "unix" | "bunix" | "unixgone" | "bunixgone" | "unixln" | "bunixln" => {
+        "unix" | "bunix" | "unixgone" | "bunixgone" | "unixln" | "bunixln" | "unixlate" | "bunixlate" => {
+            // `…late`: nothing is bound at the sink's path until the first `R` (the receiver starts late); until
+            // then the peer socket is a placeholder bound elsewhere
             let path = temp_path("peer");
-            let peer = UnixDatagram::bind(&path).ok()?;
+            let late = kind.ends_with("late");
+            let placeholder = temp_path("placeholder");
+            let peer = UnixDatagram::bind(if late { &placeholder } else { &path }).ok()?;
+            if late {
+                let _ = std::fs::remove_file(&placeholder);
+            }
             peer.set_nonblocking(true).ok()?;
             let sock = UnixDatagram::unbound().ok()?;
             sock.set_nonblocking(nb).ok()?;
@@ -632,9 +716,20 @@ fn run_lock(cap: usize) -> String {
             f_done.store(if r.is_ok() { 1 } else { 2 }, Ordering::Release);
         })
     };
+    // … and a second flush, started while the first one is already waiting
+    std::thread::sleep(Duration::from_millis(20));
+    let f2_done = Arc::new(AtomicU64::new(0));
+    let fthread2 = {
+        let sink = sink.clone();
+        let f2_done = f2_done.clone();
+        std::thread::spawn(move || {
+            let r = sink.flush();
+            f2_done.store(if r.is_ok() { 1 } else { 2 }, Ordering::Release);
+        })
+    };
     std::thread::sleep(Duration::from_millis(150));
     let early = b_done.load(Ordering::Acquire);
-    let early_flush = f_done.load(Ordering::Acquire);
+    let early_flush = f_done.load(Ordering::Acquire) + f2_done.load(Ordering::Acquire);
     a_stop.store(1, Ordering::Release);
     // release everybody: drain until both are done
     let mut dgs: Vec<Vec<u8>> = Vec::new();
@@ -660,6 +755,7 @@ fn run_lock(cap: usize) -> String {
     }
     let _ = b.join();
     let _ = fthread.join();
+    let _ = fthread2.join();
     let _ = sink.flush();
     while let Ok(n) = peer.recv(&mut buf) {
         dgs.push(buf[..n].to_vec());
@@ -716,14 +812,21 @@ fn closed_addr() -> Option<std::net::SocketAddr> {
 }
 
 fn run_cr(kind: &str, n: usize) -> String {
+    let decoy = UdpSocket::bind("127.0.0.1:0").ok();
+    if let Some(d) = &decoy {
+        let _ = d.set_nonblocking(true);
+    }
+    let decoy_addr = decoy.as_ref().and_then(|d| d.local_addr().ok());
     let attempt = |buffered: bool| -> Option<(usize, usize, usize)> {
         let addr = closed_addr()?;
         let sock = UdpSocket::bind("127.0.0.1:0").ok()?;
         sock.connect(addr).ok()?;
+        // the address list has a second entry: a refusal from the first must not redirect the sink to it
+        let addrs = [addr, decoy_addr?];
         let sink: DynSink = if buffered {
-            Arc::new(BufferedUdpMetricSink::with_capacity(addr, sock, 8).ok()?)
+            Arc::new(BufferedUdpMetricSink::with_capacity(&addrs[..], sock, 8).ok()?)
         } else {
-            Arc::new(UdpMetricSink::from(addr, sock).ok()?)
+            Arc::new(UdpMetricSink::from(&addrs[..], sock).ok()?)
         };
         let mut errs = 0usize;
         for i in 0..n {
@@ -749,13 +852,24 @@ fn run_cr(kind: &str, n: usize) -> String {
         }
         Some(refused)
     };
-    match attempt(kind == "budp") {
+    let r = match attempt(kind == "budp") {
         None => "setup-failed".to_string(),
         Some((errs, dropped, attempts)) => match control(attempts.max(n)) {
             None => "setup-failed".to_string(),
             Some(refused) => format!("sink{}.{}.{} ctl{}", errs, dropped, attempts, refused),
         },
+    };
+    let mut stray = 0;
+    if let Some(d) = &decoy {
+        let mut buf = [0u8; 2048];
+        while d.recv(&mut buf).is_ok() {
+            stray += 1;
+        }
     }
+    if stray > 0 {
+        return format!("redirected{}", stray);
+    }
+    r
 }
 
 fn run_line(line: &str) -> Option<String> {
@@ -764,6 +878,9 @@ fn run_line(line: &str) -> Option<String> {
         let f: Vec<&str> = l.split(' ').collect();
         if f[0] == "sockbig" && f.len() == 2 {
             return Some(format!("{} => {}", l, run_big(f[1])));
+        }
+        if f[0] == "sockstrace" && f.len() == 2 {
+            return Some(format!("{} => {}", l, run_strace(f[1])));
         }
     }
     let line = line.split(" => ").next().unwrap().trim();
@@ -800,7 +917,7 @@ fn gen_ops(rng: &mut Rng, kind: &str, capn: usize, n: usize, manual: bool) -> Ve
             ops.push("f".to_string());
         } else if r < 26 && manual {
             ops.push("r".to_string());
-        } else if r < (if kind.ends_with("ln") { 34 } else { 28 }) && kind.contains("unix") && !kind.ends_with("gone") && !manual {
+        } else if r < (if kind.ends_with("ln") { 34 } else { 28 }) && kind.contains("unix") && !kind.ends_with("gone") && !kind.ends_with("late") && !manual {
             ops.push("R".to_string());
         } else if r < 32 {
             let big: &[usize] = if kind.contains("udp") { &[1432, 8192, 65507, 65508, 70000] } else { &[1432, 8192, 65507, 70000] };
@@ -916,6 +1033,25 @@ fn main() {
         writeln!(out, "sock {} {} 1 m {} => {}", kind, cap, ops.join(","), obs).unwrap();
         count += 1;
     }
+    // a receiver that starts late: a long run of refused sends (ENOENT), then the receiver binds and every
+    // later send must reach it
+    for (i, kind) in ["unixlate", "bunixlate", "unixlate", "bunixlate"].iter().enumerate() {
+        let cap = if kind.starts_with('b') { ["1", "16"][i / 2].to_string() } else { "-".to_string() };
+        let mut ops: Vec<String> = Vec::new();
+        for j in 0..(if i < 2 { 130 } else { 260 }) {
+            ops.push(format!("e{}", hex(format!("late.{}", j).as_bytes())));
+        }
+        ops.push("s".to_string());
+        ops.push("R".to_string());
+        for j in 0..6 {
+            ops.push(format!("e{}", hex(format!("after.{}", j).as_bytes())));
+        }
+        ops.push("f".to_string());
+        ops.push("s".to_string());
+        let obs = run_sock(kind, &cap, false, "a", &ops);
+        writeln!(out, "sock {} {} 0 a {} => {}", kind, cap, ops.join(","), obs).unwrap();
+        count += 1;
+    }
     let nmt = if tier == "quick" { 24 } else { 600 };
     for i in 0..nmt {
         let kind = ["bspy", "bunix", "budp", "unix"][i % 4];
@@ -929,6 +1065,10 @@ fn main() {
     }
     for kind in ["unixgone", "udp"] {
         writeln!(out, "sockbig {} => {}", kind, run_big(kind)).unwrap();
+        count += 1;
+    }
+    for kind in ["bunix", "unix"] {
+        writeln!(out, "sockstrace {} => {}", kind, run_strace(kind)).unwrap();
         count += 1;
     }
     for kind in ["udp", "budp"] {
